@@ -11,6 +11,7 @@ NPC = 'tenpy/linalg/np_conserved.py'
 CH = 'tenpy/linalg/charges.py'
 SPARSE = 'tenpy/linalg/sparse.py'
 CACHE = 'tenpy/tools/cache.py'
+PYX = 'tenpy/linalg/_npc_helper.pyx'
 
 # functions that store _qdata without re-stating the flag, each with the reason why the row order
 # (or the truth of the retained flag) is preserved -- confirmed by reading
@@ -29,6 +30,8 @@ ORDER_PRESERVING = {
     (NPC, 'speigs'): 'one row',
     (SPARSE, 'FlatLinearOperator.flat_to_npc'): 'rows [[i,i]] ascending (flag True from the '
                                                 'constructor) / single compact row',
+    (PYX, 'Array_iadd_prefactor_other'): 'merge of two block lists sorted by isort_qdata() just '
+                                         'before (flag True set there)',
     (CACHE, '_NpcArrayStorage.load'): 'the same rows round-trip through the file; flag kept on '
                                       'the retained shallow copy',
     (CACHE, '_NpcArrayStorage.save'): 'rows removed from the retained copy only while on disk',
@@ -49,6 +52,9 @@ TRUE_CLAIMS = {
     (NPC, '_combine_legs_worker'): 'lexsort',
     (NPC, '_tensordot_worker'): 'axiom: column-major emission over sorted keep-indices',
     (SPARSE, 'FlatLinearOperator.flat_to_npc'): 'axiom: compact storage is a single row',
+    (PYX, 'Array_iscale_prefactor'): 'empty',
+    (PYX, '_combine_legs_worker'): 'lexsort',
+    (PYX, '_tensordot_worker'): 'axiom: column-major emission over sorted keep-indices',
 }
 
 
@@ -63,10 +69,11 @@ def _attr_of(t, attr):
     return None, sub
 
 
-def check_flag_q(prog, rep, modules=(NPC, SPARSE, CACHE)):
-    for rel in modules:
-        m = prog.module(rel)
-        rep.unit(m)
+def check_flag_q(prog, rep, modules=(NPC, SPARSE, CACHE), mods=None):
+    for m in (mods if mods is not None else [prog.module(r) for r in modules]):
+        rel = m.relpath
+        if hasattr(m, 'tree') and hasattr(m, 'classes') and mods is None:
+            rep.unit(m)
         for q, f in m.functions.items():
             qstores = []
             fstores = []
@@ -509,6 +516,10 @@ def run(prog, rep, tier):
              'list is followed by _set_shape()')
     rep.rule('CHARGE-*', 'symbolic charge bookkeeping: see sa/charge.py')
     check_flag_q(prog, rep)
+    from ..pyx import load_pyx
+    pyx = load_pyx(prog)
+    rep.units[PYX] = pyx.digest
+    check_flag_q(prog, rep, mods=[pyx])
     check_flag_l(prog, rep)
     check_coupled_array(prog, rep)
     check_rank_change(prog, rep)
